@@ -3,7 +3,8 @@
     the real class over double with this model within a relative tolerance).
 
     [hi] / [lo] are the initial values of min_ / max_ (numeric_limits<Type>::max() / lowest()).
-    count_ is modelled as an unbounded N (size_t overflow of count_ * other.count_ is outside the model).
+    count_ is modelled as an unbounded N: the sum count_ + other.count_ is assumed not to wrap (fewer than 2^64
+    values in total); the product of the counts is taken in Q, as the repaired code multiplies them as doubles.
 
     [combine_variance] and [plus_assign] are the repaired code (fixes/C20/04, 05); the shipped
     variants are kept as [combine_variance_shipped] / [plus_assign_shipped]. *)
@@ -33,18 +34,26 @@ Definition combine_means (a b : agg) : Q :=
   else if (count b =? 0)%N then mean a
   else (mean a * qn (count a) + mean b * qn (count b)) / qn (count a + count b).
 
-(** repaired: zero counts handled as in combine_means *)
+(** repaired: zero counts handled as in combine_means (fixes/C20/05); the counts are multiplied as doubles
+    (fixes/C20/07), i.e. the product is taken in Q, not in size_t *)
 Definition combine_variance (a b : agg) : Q :=
   if (count a =? 0)%N then nvar b
   else if (count b =? 0)%N then nvar a
   else let delta := mean a - mean b in
-       nvar a + nvar b + (delta * delta) * qn (count a * count b) / qn (count a + count b).
+       nvar a + nvar b + (delta * delta) * (qn (count a) * qn (count b)) / qn (count a + count b).
 
 (** shipped: no guard; 0.0 / 0.0 = NaN is modelled as None *)
 Definition combine_variance_shipped (a b : agg) : option Q :=
   if (count a + count b =? 0)%N then None
   else let delta := mean a - mean b in
        Some (nvar a + nvar b + (delta * delta) * qn (count a * count b) / qn (count a + count b)).
+
+(** shipped: count_ * other.count_ was multiplied in size_t, i.e. modulo 2^64 *)
+Definition combine_variance_wrapping (a b : agg) : Q :=
+  if (count a =? 0)%N then nvar b
+  else if (count b =? 0)%N then nvar a
+  else let delta := mean a - mean b in
+       nvar a + nvar b + (delta * delta) * qn ((count a * count b) mod 2 ^ 64) / qn (count a + count b).
 
 (** operator+ *)
 Definition plus (a b : agg) : agg :=
@@ -86,7 +95,9 @@ Inductive op :=
 | OAdd (i : nat) (v : Q)          (* x_i.add(v) *)
 | OPlus (i j k : nat)             (* x_i = x_j + x_k *)
 | OPlusAssign (i j : nat)         (* x_i += x_j *)
-| OReset (i : nat).               (* x_i = Aggregate() *)
+| OReset (i : nat)                (* x_i = Aggregate() *)
+| OConst (i : nat) (c : N) (v : Q). (* x_i = Aggregate(c, v, 0.0, v, v): the initializing constructor with the fields of
+                                      c copies of the value v (what deserialisation of such an Aggregate produces) *)
 
 Fixpoint upd {A} (l : list A) (i : nat) (x : A) : list A :=
   match l, i with
@@ -107,6 +118,7 @@ Definition step (hi lo : Q) (s : list agg) (o : op) : list agg :=
   | OPlus i j k => upd s i (norm (plus (nth j s e) (nth k s e)))
   | OPlusAssign i j => upd s i (norm (plus_assign (nth i s e) (nth j s e)))
   | OReset i => upd s i e
+  | OConst i c v => upd s i (norm (mkAgg c v 0 v v))
   end.
 
 Definition run (hi lo : Q) (nvars : nat) (ops : list op) : list agg :=
@@ -119,6 +131,7 @@ Definition gstep (g : list (list Q)) (o : op) : list (list Q) :=
   | OPlus i j k => upd g i (nth j g [] ++ nth k g [])
   | OPlusAssign i j => upd g i (nth i g [] ++ nth j g [])
   | OReset i => upd g i []
+  | OConst i c v => upd g i (repeat v (N.to_nat c))
   end.
 Definition ghost (nvars : nat) (ops : list op) : list (list Q) :=
   fold_left gstep ops (repeat [] nvars).
